@@ -241,3 +241,234 @@ func runFillResets(c *Ctx) []Obligation {
 	}
 	return out
 }
+
+// RESIZE-FIRST (C11): the compact decoders fill their receiver in place and re-use its storage: a
+// list decoder first brings the receiver to the decoded length (`*rs = (*rs)[0:l]`, after growing
+// it) or empties it (`*m = (*m)[0:0]`, `r.Members = r.Members[0:0]`) and then decodes the elements.
+// The worlds decode many records into one value, so a path that returns before that statement —
+// an "empty list, nothing to do" shortcut — leaves the previous record's elements in place although
+// the byte count it returns is right.
+//
+// Slots (by shape, package ingest/compact): every method whose name starts with Unmarshal (or
+// From…/Fill… decoders) that contains, at the top level of its body or of one if, an assignment
+// that re-slices its receiver or a field of its receiver from index 0 (`X = X[0:n]`, `X = X[:n]`).
+// Obligation per method: every return statement is preceded, on every path from the entry, by
+// such a re-slice (must-pass-through on the control-flow graph). Returns in error branches that
+// come before any decoding are not exempt: the caller's value must not keep stale elements either.
+func init() {
+	register(&Rule{
+		Name:  "RESIZE-FIRST",
+		IR:    "cfg",
+		Props: []string{"C11"},
+		Floor: 10,
+		Doc:   "a compact decoder that brings its re-used receiver to the decoded length (X = X[0:n]) does so on every path before it returns: no early return leaves the previous record's elements in the receiver",
+		Run:   runResizeFirst,
+	})
+}
+
+func runResizeFirst(c *Ctx) []Obligation {
+	var out []Obligation
+	p := c.Pkg("ingest/compact")
+	if p == nil {
+		return out
+	}
+	info := p.TypesInfo
+	for _, fd := range c.FuncDecls(p) {
+		if fd.Recv == nil || len(fd.Recv.List) != 1 || len(fd.Recv.List[0].Names) != 1 || !strings.HasPrefix(fd.Name.Name, "Unmarshal") {
+			continue
+		}
+		recv := info.Defs[fd.Recv.List[0].Names[0]]
+		rootedAtRecv := func(e ast.Expr) bool {
+			for {
+				switch x := ast.Unparen(e).(type) {
+				case *ast.StarExpr:
+					e = x.X
+				case *ast.SelectorExpr:
+					e = x.X
+				case *ast.Ident:
+					return info.Uses[x] == recv
+				default:
+					return false
+				}
+			}
+		}
+		var resizes []ast.Node
+		var returns []*ast.ReturnStmt
+		inspectShallow(fd.Body, func(n ast.Node) bool {
+			switch x := n.(type) {
+			case *ast.AssignStmt:
+				if len(x.Lhs) == 1 && len(x.Rhs) == 1 && rootedAtRecv(x.Lhs[0]) {
+					if se, ok := ast.Unparen(x.Rhs[0]).(*ast.SliceExpr); ok && sameExpr(info, ast.Unparen(se.X), ast.Unparen(x.Lhs[0])) && (se.Low == nil || isZeroLit(se.Low)) && se.High != nil {
+						resizes = append(resizes, x)
+					}
+				}
+			case *ast.ReturnStmt:
+				returns = append(returns, x)
+			}
+			return true
+		})
+		if len(resizes) == 0 || len(returns) == 0 {
+			continue
+		}
+		ob := Obligation{Key: c.FuncName(p, fd), Pos: c.Position(fd.Pos()), Status: OK}
+		g := newCFG(info, fd.Body)
+		isResize := func(n ast.Node) bool {
+			for _, r := range resizes {
+				if n == r {
+					return true
+				}
+			}
+			return false
+		}
+		var bad []string
+		seen := map[int32]bool{}
+		var walk func(bi int32)
+		walk = func(bi int32) {
+			if seen[bi] {
+				return
+			}
+			seen[bi] = true
+			b := g.Blocks[bi]
+			for _, n := range b.Nodes {
+				if isResize(n) {
+					return
+				}
+				if r, ok := n.(*ast.ReturnStmt); ok {
+					bad = append(bad, c.Position(r.Pos()))
+					return
+				}
+			}
+			for _, s := range b.Succs {
+				walk(s.Index)
+			}
+		}
+		if len(g.Blocks) > 0 {
+			walk(0)
+		}
+		if len(bad) > 0 {
+			sort.Strings(bad)
+			ob.Status = Violation
+			ob.Detail = fmt.Sprintf("%s brings its receiver to the decoded length at %s, but the return at %s is reachable without it: decoding into a value that already holds elements keeps the previous record's elements",
+				fd.Name.Name, c.Position(resizes[0].Pos()), strings.Join(bad, ", "))
+		} else {
+			ob.Detail = fmt.Sprintf("%s re-slices its receiver (%s) on every path before any of its %d return(s)", fd.Name.Name, strings.TrimSpace(nodeText(c.Fset, resizes[0])), len(returns))
+		}
+		out = append(out, ob)
+	}
+	return out
+}
+
+// ERR-STICKY (C28): worker goroutines report a failing callback through a variable they share
+// with the function that started them (`readOSMDataErr = err` under a lock); the function returns
+// that variable after the workers have finished. The error reaches the caller only if it stays
+// recorded: a worker that finishes its own work successfully afterwards must not store its nil
+// over it. So every store of an error *variable* into the shared variable has to be conditional on
+// that variable being non-nil.
+//
+// Slots (by shape, whole module; packages osm, encoding, ingest, ingest/compact and api/functions
+// carry C28, others are informational): inside a function literal started with `go` (directly, or
+// through errgroup's Go), every assignment `E = x` where E is an error-typed variable declared
+// outside the literal and x is an error-typed variable (not the constant nil, not a fresh
+// fmt.Errorf/errors.New value). Obligation: the assignment is nested in the true branch of an if
+// whose condition tests `x != nil` (or the else branch of `x == nil`).
+func init() {
+	register(&Rule{
+		Name:  "ERR-STICKY",
+		IR:    "ast",
+		Props: []string{"C28"},
+		Floor: 1,
+		Doc:   "inside worker goroutines, an error variable is stored into the error variable shared with the starter only under a test that it is not nil: a worker that succeeds later cannot erase the error another worker recorded",
+		Run:   runErrSticky,
+	})
+}
+
+func runErrSticky(c *Ctx) []Obligation {
+	var out []Obligation
+	isErr := func(t types.Type) bool { return t != nil && t.String() == "error" }
+	for _, p := range c.SortedPkgs() {
+		info := p.TypesInfo
+		rel := relPkg(p)
+		anchored := rel == "osm" || rel == "encoding" || rel == "ingest" || rel == "ingest/compact" || rel == "api/functions"
+		for _, fd := range c.FuncDecls(p) {
+			name := c.FuncName(p, fd)
+			ord := 0
+			var lits []*ast.FuncLit
+			ast.Inspect(fd.Body, func(n ast.Node) bool {
+				switch x := n.(type) {
+				case *ast.GoStmt:
+					if fl, ok := ast.Unparen(x.Call.Fun).(*ast.FuncLit); ok {
+						lits = append(lits, fl)
+					}
+				case *ast.CallExpr:
+					if sel, ok := ast.Unparen(x.Fun).(*ast.SelectorExpr); ok && sel.Sel.Name == "Go" && len(x.Args) == 1 {
+						if fl, ok := ast.Unparen(x.Args[0]).(*ast.FuncLit); ok {
+							lits = append(lits, fl)
+						}
+					}
+				}
+				return true
+			})
+			for _, fl := range lits {
+				ast.Inspect(fl.Body, func(n ast.Node) bool {
+					as, ok := n.(*ast.AssignStmt)
+					if !ok || as.Tok.String() != "=" || len(as.Lhs) != len(as.Rhs) {
+						return true
+					}
+					for i, l := range as.Lhs {
+						lid, ok := ast.Unparen(l).(*ast.Ident)
+						rid, ok2 := ast.Unparen(as.Rhs[i]).(*ast.Ident)
+						if !ok || !ok2 || rid.Name == "nil" {
+							continue
+						}
+						lo, _ := info.Uses[lid].(*types.Var)
+						ro, _ := info.Uses[rid].(*types.Var)
+						if lo == nil || ro == nil || !isErr(lo.Type()) || !isErr(ro.Type()) {
+							continue
+						}
+						if lo.Pos() >= fl.Pos() && lo.Pos() < fl.End() {
+							continue // declared inside the goroutine: not shared
+						}
+						ord++
+						ob := Obligation{Key: fmt.Sprintf("%s#%d", name, ord), Pos: c.Position(as.Pos()), Status: Violation,
+							Detail: fmt.Sprintf("%s = %s is stored into the shared error variable whether or not %s is nil: a worker that finishes successfully after another worker has failed overwrites the recorded error with nil, and the function reports success",
+								lid.Name, rid.Name, rid.Name)}
+						path := enclosing(fl.Body, as)
+						for j, a := range path {
+							is, ok := a.(*ast.IfStmt)
+							if !ok || j+1 >= len(path) {
+								continue
+							}
+							var conds []ast.Expr
+							conds = append(conds, conjuncts(is.Cond)...)
+							for _, cd := range conds {
+								be, ok := ast.Unparen(cd).(*ast.BinaryExpr)
+								if !ok {
+									continue
+								}
+								x, y := ast.Unparen(be.X), ast.Unparen(be.Y)
+								isX := func(e ast.Expr) bool { id, ok := e.(*ast.Ident); return ok && info.Uses[id] == types.Object(ro) }
+								isNil := func(e ast.Expr) bool { id, ok := e.(*ast.Ident); return ok && id.Name == "nil" }
+								if (isX(x) && isNil(y)) || (isX(y) && isNil(x)) {
+									if (be.Op.String() == "!=" && path[j+1] == ast.Node(is.Body)) || (be.Op.String() == "==" && is.Else != nil && path[j+1] == ast.Node(is.Else)) {
+										ob.Status = OK
+										ob.Detail = fmt.Sprintf("%s = %s is stored only when %s is not nil (test at %s)", lid.Name, rid.Name, rid.Name, c.Position(is.Pos()))
+									}
+								}
+							}
+							// `if err := f(); err != nil {` defines ro in the init: covered by the same test
+						}
+						if !anchored {
+							if ob.Status == Violation {
+								ob.Detail = "verdict violation (outside the anchored packages): " + ob.Detail
+							}
+							ob.Status = Info
+						}
+						out = append(out, ob)
+					}
+					return true
+				})
+			}
+		}
+	}
+	return out
+}
